@@ -501,10 +501,43 @@ func writeErrorResponse(zw network.Writer, ctx *app.RequestContext, serverName [
 	return zw
 }
 
+// copyToExtWriter sends r through hw piece by piece. The writer may keep a piece it was
+// given until the next flush, so every piece is flushed before its buffer is filled again.
+func copyToExtWriter(hw network.ExtWriter, r io.Reader) error {
+	buf := make([]byte, 8192)
+	for {
+		n, err := r.Read(buf)
+		if n > 0 {
+			if _, werr := hw.Write(buf[:n]); werr != nil {
+				return werr
+			}
+			if werr := hw.Flush(); werr != nil {
+				return werr
+			}
+		}
+		if err == io.EOF {
+			return nil
+		}
+		if err != nil {
+			return err
+		}
+	}
+}
+
 func writeResponse(ctx *app.RequestContext, w network.Writer) error {
 	// Skip default response writing logic if it has been hijacked
-	if ctx.Response.GetHijackWriter() != nil {
-		return ctx.Response.GetHijackWriter().Finalize()
+	if hw := ctx.Response.GetHijackWriter(); hw != nil {
+		if ctx.Response.IsBodyStream() {
+			// a body given as a stream (SetBodyStream, File) goes out through the writer too
+			err := copyToExtWriter(hw, ctx.Response.BodyStream())
+			if err1 := ctx.Response.CloseBodyStream(); err == nil {
+				err = err1
+			}
+			if err != nil {
+				return err
+			}
+		}
+		return hw.Finalize()
 	}
 
 	err := resp.Write(&ctx.Response, w)
